@@ -240,9 +240,9 @@ def real_slots(chk, rounds):
             chk.coverage["traces_validated_against_impl"] += 1
 
 
-def run_prop(prop, tier, seed, replay=None, extra_oracles=(), extra_part=None):
+def run_prop(prop, tier, seed, replay=None, extra_oracles=(), extra_part=None, extra_targets=()):
     chk = Check(prop, tier, seed)
-    chk.build_proofs(MODEL_TARGETS)
+    chk.build_proofs(MODEL_TARGETS + list(extra_targets))
     oracles = [prop] + list(extra_oracles)
     if replay is not None:
         replay_case(chk, replay, oracles)
